@@ -109,7 +109,7 @@ var c34BadIdxKinds = []string{"length-shortened", "pack-unindexed", "offset-shif
 // c34Env is what one C34 scenario works on.
 type c34Env struct {
 	seed int64
-	si   int
+	si   int // ordinal of the scenario within its class
 	l    *vLife
 	e    *vEnv
 	r    *rand.Rand
@@ -384,6 +384,7 @@ func TestVerif_C34(t *testing.T) {
 		return []string{"rand", "craft", "multi", "badidx", "craft", "multi", "rand", "craft", "badidx"}[si%9]
 	}
 	ns := kit.Pick(18, 250)
+	classCount := map[string]int{}
 	for si := 0; si < ns; si++ {
 		seed := kit.Seed()*100000 + 3400 + int64(si)
 		r := rand.New(rand.NewSource(seed))
@@ -399,7 +400,8 @@ func TestVerif_C34(t *testing.T) {
 			}
 		}
 		e := l.e
-		c := &c34Env{seed: seed, si: si, l: l, e: e, r: r, proj: e.projector()}
+		c := &c34Env{seed: seed, si: classCount[class], l: l, e: e, r: r, proj: e.projector()}
+		classCount[class]++
 		runs, desc := c34Damage(c, class)
 		vMaxUnavailableRun = 0
 		before, _, err := vSnapshotViews(t, e)
